@@ -40,6 +40,7 @@ const (
 	fTwice          = "twice"
 	fDirAsFile      = "dir-as-file"
 	fDash           = "dash"
+	fDashFirst      = "dash-first" // `-` followed by path arguments
 	fNone           = "none"
 )
 
@@ -48,6 +49,7 @@ const histoRegex = `^(\w+) (\S+)$`
 var histoRe = regexp.MustCompile(histoRegex)
 
 const stdinSentinel = "SENTINEL 1000000\n"
+const stdinExtra = "in 1\nb 100\n"
 
 type entry struct {
 	kind string
@@ -151,6 +153,7 @@ func buildTree(dir string, kinds []string) *tree {
 		}
 	}
 	must(os.WriteFile(filepath.Join(dir, "stdin.sentinel"), []byte(stdinSentinel), 0o644))
+	must(os.WriteFile(filepath.Join(dir, "stdin.extra"), []byte(stdinExtra), 0o644))
 	var sb []byte
 	if len(kinds) == 1 && kinds[0] != kSubdir && kinds[0] != kMissing {
 		sb = content(kinds[0], 0)
@@ -215,6 +218,7 @@ type expectation struct {
 	inputs        []*input
 	exitAmbiguous bool // statement silent (empty glob expansion)
 	refusedOK     bool // -z with stdin: an up-front refusal is also accepted
+	anyRefusalOK  bool // `-` mixed with paths: a usage refusal is also accepted
 	variant       string
 }
 
@@ -358,6 +362,17 @@ func expect(t *tree, c Case) *expectation {
 		if len(ns) == 0 {
 			exp.exitAmbiguous = true
 		}
+	case fDashFirst:
+		// "`-` ... reads standard input under the name <stdin>" and "Each path
+		// argument ... is opened and read exactly once per mention": both hold
+		// when everything is read; refusing the combination is accepted too
+		exp.cliArgs = append([]string{"-"}, names...)
+		exp.stdinName = "stdin.extra"
+		exp.inputs = append(exp.inputs, &input{src: "<stdin>", kind: "stdin-extra", lines: splitLines([]byte(stdinExtra))})
+		for _, n := range names {
+			addPath(n, false)
+		}
+		exp.anyRefusalOK = true
 	case fDash, fNone:
 		// "`-` or no argument reads standard input under the name <stdin>"
 		if c.Form == fDash {
